@@ -1,6 +1,8 @@
 package transform
 
 import (
+	"errors"
+	"strconv"
 	"github.com/jf-tech/omniparser/customfuncs"
 	"github.com/jf-tech/omniparser/idr"
 	"github.com/jf-tech/omniparser/transformctx"
@@ -78,7 +80,7 @@ func zzCanon(d *Decl) string {
 	return s + "}"
 }
 
-var zzNames = []string{"a", "arr", "b", "c", "d", "k", "p", "q", "u", "v", "x", "y", "z"}
+var zzNames = []string{"a", "arr", "b", "c", "d", "k", "p", "q", "u", "v", "x", "y", "z", "p%q", "m.n", "r%", "s.t", "%."}
 
 // custom functions registered for the harness schemas
 func zzCat(_ *transformctx.Ctx, a, b string) (string, error) { return a + "+" + b, nil }
@@ -95,7 +97,20 @@ func zzNodeName(_ *transformctx.Ctx, n *idr.Node, suffix string) (string, error)
 
 func zzOnlyCtx(_ *transformctx.Ctx) (string, error) { return "ctx-only", nil }
 
-var zzFuncs = customfuncs.CustomFuncs{"cat": zzCat, "var": zzVar, "nodename": zzNodeName, "onlyctx": zzOnlyCtx}
+// zzMixed: a fixed parameter followed by a variadic one (the shape of the built-in javascript)
+func zzMixed(_ *transformctx.Ctx, prefix string, rest ...string) (string, error) {
+	return prefix + ":" + strconv.Itoa(len(rest)), nil
+}
+
+// zzFailIf fails for the argument "1" (a function that rejects some records' data)
+func zzFailIf(_ *transformctx.Ctx, a string) (string, error) {
+	if a == "1" {
+		return "", errors.New("rejected")
+	}
+	return "ok:" + a, nil
+}
+
+var zzFuncs = customfuncs.CustomFuncs{"cat": zzCat, "var": zzVar, "nodename": zzNodeName, "onlyctx": zzOnlyCtx, "mixed": zzMixed, "failif": zzFailIf}
 
 // zzValidate runs the real schema validation over hand-built declarations.
 func zzValidate(decls map[string]*Decl) *Decl {
@@ -180,6 +195,25 @@ func zzSchema(k int) map[string]*Decl {
 			elems = append(elems, &Decl{Const: zzS(v)})
 		}
 		return map[string]*Decl{finalOutput: {Object: map[string]*Decl{"arr": {Array: elems}}}}
+	case 12: // ignore_error: inline, through a template, and next to a textually identical strict twin
+		return map[string]*Decl{
+			"t4": {CustomFunc: &CustomFuncDecl{Name: "failif", Args: []*Decl{{XPath: zzS("A[1]/A/v")}}, IgnoreError: true}},
+			finalOutput: {Object: map[string]*Decl{
+				"a": {CustomFunc: &CustomFuncDecl{Name: "failif", Args: []*Decl{{XPath: zzS("A[1]/A/v")}}, IgnoreError: true}},
+				"x": {Template: zzS("t4")},
+				"c": {Const: zzS("c")},
+			}}}
+	case 13: // the lenient call first, then the same call text without ignore_error
+		return map[string]*Decl{finalOutput: {Object: map[string]*Decl{
+			"a": {CustomFunc: &CustomFuncDecl{Name: "failif", Args: []*Decl{{XPath: zzS("A[1]/A/v")}}, IgnoreError: true}},
+			"b": {CustomFunc: &CustomFuncDecl{Name: "failif", Args: []*Decl{{XPath: zzS("A[1]/A/v")}}}},
+		}}}
+	case 14: // field names with the characters the fqdn escaping touches
+		return map[string]*Decl{finalOutput: {Object: map[string]*Decl{
+			"p%q": {XPath: zzS("B")},
+			"m.n": {XPath: zzS("A[1]"), Object: map[string]*Decl{"r%": {XPath: zzS("v")}, "s.t": {Const: zzS("k")}}},
+			"%.":  {Const: zzS("c")},
+		}}}
 	default: // casts and keep_empty_or_null on a nested object
 		return map[string]*Decl{finalOutput: {Object: map[string]*Decl{
 			"a": {XPath: zzS("A[1]/v"), ResultType: zzRT("boolean")},
@@ -189,7 +223,7 @@ func zzSchema(k int) map[string]*Decl {
 	}
 }
 
-const zzNumSchemas = 12
+const zzNumSchemas = 15
 
 func zzText(name string) string { return zzTextN(name, 2) }
 
